@@ -1306,6 +1306,78 @@ def case_view_formulas(ctx, rseed, count):
                        sample={"variables": n, "presented": shown[:4], "stored": len(F._clauses)})
 
 
+class _FailingStream(io.StringIO):
+    def __init__(self, writes):
+        io.StringIO.__init__(self)
+        self.left = writes
+
+    def write(self, text):
+        if self.left <= 0:
+            raise OSError(28, "No space left on device")
+        self.left -= 1
+        return io.StringIO.write(self, text)
+
+
+class _NestingStream(io.StringIO):
+    def __init__(self, inner, at):
+        io.StringIO.__init__(self)
+        self.inner, self.at, self.calls, self.fired = inner, at, 0, False
+
+    def write(self, text):
+        self.calls += 1
+        if not self.fired and self.calls > self.at:
+            self.fired = True
+            self.inner()
+        return io.StringIO.write(self, text)
+
+
+def case_interrupted_and_nested(ctx, rseed, count):
+    """An export that fails because of its destination followed by an ordinary export of another formula, and an export
+    during which another formula is exported (from inside the stream's write): each text is its own formula's."""
+    r = ctx.rng("c06nest", rseed)
+    K = cnf_classes()["CNF"] if isinstance(cnf_classes(), dict) else list(cnf_classes())[0]
+
+    def rand_formula():
+        n = r.randint(1, 12)
+        cl = [[r.choice([1, -1]) * r.randint(1, n) for _ in range(r.randint(0, 4))] for _ in range(r.randint(0, 30))]
+        F = K()
+        F.update_variable_number(n)
+        F.add_clauses_from(cl)
+        F.header["note"] = "formula %d" % r.randint(0, 999)
+        return F, n, cl
+
+    def same(text, n, cl):
+        try:
+            rn, rc = ref.read(text)
+        except Exception:       # noqa: BLE001 - ref.Rejected
+            return False
+        return rn == n and [list(c) for c in rc] == cl
+    for _ in range(count):
+        A, nA, cA = rand_formula()
+        B, nB, cB = rand_formula()
+        for writes in (0, 1, 2, 3, 7, 20):
+            ctx.call(A.to_file, _FailingStream(writes), fileformat="dimacs")
+        closed = io.StringIO()
+        closed.close()
+        ctx.call(A.to_file, closed, fileformat="dimacs")
+        ctx.count("exports_interrupted_by_their_destination", 7)
+        buf = io.StringIO()
+        st, v = ctx.call(B.to_file, buf, fileformat="dimacs")
+        if st == "exc" or not same(buf.getvalue(), nB, cB) or not same(B.to_dimacs(), nB, cB):
+            ctx.violation("dimacs-writer:after-interrupted-export", "after exports of another formula that failed at their destination, the text "
+                          "written for a %d-variable %d-clause formula is %r..." % (nB, len(cB), (buf.getvalue() if st == "ok" else repr(v))[:120]))
+        inner = io.StringIO()
+        outer = _NestingStream(lambda: B.to_file(inner, fileformat="dimacs", export_varnames=True), r.choice([0, 1, 2, 4, 8, 16]))
+        st, v = ctx.call(A.to_file, outer, fileformat="dimacs")
+        ctx.count("nested_exports")
+        if not outer.fired:
+            B.to_file(inner, fileformat="dimacs")
+        if st == "exc" or not same(outer.getvalue(), nA, cA) or not same(inner.getvalue(), nB, cB):
+            ctx.violation("dimacs-writer:nested-export", "an export during which another formula is exported: outer text %r..., inner text %r..."
+                          % ((outer.getvalue() if st == "ok" else repr(v))[:100], inner.getvalue()[:100]))
+        ctx.judged(("nested", nA, tuple(map(tuple, cA)), nB, tuple(map(tuple, cB))), nontrivial=bool(cA or cB), sample={"outer_clauses": len(cA), "inner_clauses": len(cB)})
+
+
 def case_count_sweep(ctx, counts):
     """Formulas with every clause count in a range (a fast path of the writer or the reader may begin at any
     unremarkable size), written by both routes and read back by the library and by the reference reader."""
@@ -1451,6 +1523,7 @@ def _workload(tier, seed):
         yield "export_histories", {"rseed": seed * 1000 + b, "count": 60}
     for b in range(2 if q else 30):
         yield "view_formulas", {"rseed": seed * 1000 + b, "count": 40}
+        yield "interrupted_and_nested", {"rseed": seed * 1000 + b, "count": 40}
     sweep = list(range(seed % 7, 2300, 7)) if q else list(range(0, 5200))
     for i in range(0, len(sweep), 80):
         yield "count_sweep", {"counts": sweep[i:i + 80]}
